@@ -36,6 +36,7 @@ def child_main(argv):
     from .monitor import Ctx
 
     ctx = Ctx(pid, tier, int(seed), int(shard), int(nshards), replay=replay)
+    ctx.partial_path = out + ".partial"
     status = "ok"
     err = None
     try:
@@ -84,7 +85,7 @@ def parent_main(argv):
         nshards = 1
     else:
         nshards = int(os.environ.get("VERIF_SHARDS") or mod.SHARDS.get(tier, 1))
-    timeout = mod.TIMEOUT.get(tier, 600)
+    timeout = int(os.environ.get("VH_TIMEOUT") or mod.TIMEOUT.get(tier, 600))  # VH_TIMEOUT: watchdog override for a loaded machine
     work = tempfile.mkdtemp(prefix="vh-%s-" % pid)
     procs = []
     try:
@@ -119,10 +120,25 @@ def parent_main(argv):
                 tail = ""
                 try:
                     with open(os.path.join(cwd, "log.txt")) as f:
-                        tail = f.read()[-1500:]
+                        txt = f.read()
+                    # a fatal error (faulthandler): keep the Python stack that follows the first "Fatal Python error", not the module list at the end
+                    k = txt.find("Fatal Python error")
+                    tail = txt[k:k + 2500] if k >= 0 else txt[-1500:]
                 except Exception:
                     pass
-                problems.append("shard %d produced no result (rc=%s): %s" % (s, p.returncode, tail))
+                kept = ""
+                if os.path.exists(out + ".partial"):
+                    # the shard died or was killed: what it had observed until its last checkpoint still counts (violations included);
+                    # the run as a whole stays inconclusive because the shard did not finish
+                    try:
+                        with open(out + ".partial") as f:
+                            r = json.load(f)
+                        r["status"] = "ok"
+                        results.append(r)
+                        kept = " (observations up to its last checkpoint kept: %d monitor evaluations)" % sum(r.get("monitors", {}).values())
+                    except Exception:
+                        pass
+                problems.append("shard %d produced no final result (rc=%s)%s: %s" % (s, p.returncode, kept, tail))
         return finish(pid, tier, seed, mod, results, problems, time.time() - t0, replay_path)
     finally:
         for p, *_ in procs:
